@@ -179,6 +179,9 @@ type Sel struct {
 	M, E   []uint32
 	MT, ET int64
 	MG     uint32
+	// Nest: the function also queries the handle it is being called from (a selector such as "has a
+	// signature linked to it" does); its answer is the same
+	Nest bool
 }
 
 func idsPlus(ids []uint32) string {
